@@ -444,6 +444,131 @@ class C12(L1Prop):
         return True
 
 
+# ------------------------------------------------------------------ C09
+def renumber(pairs):
+    """renumber every id in a sequence of (op, response) lines by first appearance (nil stays 0);
+    clock readings are dropped"""
+    m = {0: 0}
+    def f(x):
+        x = int(x)
+        if x not in m:
+            m[x] = len(m)
+        return str(m[x])
+    out = []
+    for o, r in pairs:
+        t = o.split()
+        k = t[0]
+        if k == "av":
+            os_ = f"av {f(t[1])} {f(t[2])} {t[5]}"
+            fresh = t[3]
+        elif k == "gcv":
+            os_ = f"gcv {f(t[1])} {f(t[2])}"
+        elif k == "as":
+            os_ = f"as {f(t[1])} {f(t[2])} {t[4]}"
+        elif k in ("gs", "ensure"):
+            os_ = f"{k} {f(t[1])}"
+        elif k in ("backdate", "setcounter"):
+            os_ = f"{k} {f(t[1])} {t[2]}"
+        else:
+            os_ = k
+        rt = r.split()
+        if rt and rt[0] == "added":
+            rs = f"added {f(rt[1])} {rt[2]}"
+        elif rt and rt[0] == "conflict":
+            rs = f"conflict {f(rt[1])}"
+        elif rt and rt[0] == "found":
+            a, b, d = rt[1].split(":", 2)
+            rs = f"found {f(a)}:{f(b)}:{d}"
+        elif rt and rt[0] == "snap":
+            rs = f"snap {f(rt[1])} {rt[2]}"
+        else:
+            rs = r
+        out.append(os_ + " => " + rs)
+    return out
+
+
+class C09(L1Prop):
+    id = "C09"
+    rule = ("multi-client histories (2-4 clients, >=30% of id arguments foreign: other clients' version ids, snapshot "
+            "versions, client ids); for every client the projection of the history onto that client is re-run alone on "
+            "a fresh real backend and compared response by response (two-run non-interference); non-trivial = the "
+            "client quoted >=1 foreign id and another client was active in between")
+    def cases(self, rng, tier):
+        n, length = sizes(tier, (60, 40), (900, 140))
+        out = []
+        for k in range(n):
+            nc = rng.choice([2, 3, 4])
+            ops, g = rand_prefix(rng, rng.randint(10, length), nc, True, False, True)
+            out.append(Case(f"c09-{k}", ops, {"nclients": nc}))
+        return out
+    def relevant(self, i, trace):
+        # a divergence on a request that quotes an id stored for another client
+        o, ri, rm = trace[i]
+        op = Op(o)
+        if op.kind not in ("av", "gcv", "as"):
+            return False
+        arg = op.p if op.kind in ("av", "gcv") else op.v
+        owner = {}
+        for (o2, r2, _) in trace[:i]:
+            op2 = Op(o2)
+            if op2.kind == "av" and resp_kind(r2) == "added":
+                owner[added_id(r2)] = op2.c
+        return arg in owner and owner[arg] != op.c
+    def derive(self, case, trace, backend):
+        """one solo case per client: its own requests, foreign ids replaced by arbitrary fixed ids"""
+        out = []
+        clients = sorted({Op(o).c for o, _, _ in trace if Op(o).kind in ("av", "gcv", "as", "gs", "ensure", "backdate", "setcounter")})
+        for c in clients:
+            mine, ops = [], []
+            def spec(n):
+                if n == 0: return "nil"
+                if n in mine: return f"ver:1:{mine.index(n)}"
+                if n == c: return "client:1"
+                return f"${n}"
+            for (o, ri, rm) in trace:
+                op = Op(o)
+                if op.c != c or op.kind == "dump":
+                    continue
+                t = o.split()
+                pl = lambda d: "e" if d == "-" else "b:" + d
+                if op.kind == "av":
+                    ops.append(f"av 1 {spec(op.p)} {pl(op.data)}")
+                    if resp_kind(ri) == "added":
+                        mine.append(added_id(ri))
+                elif op.kind == "gcv":
+                    ops.append(f"gcv 1 {spec(op.p)}")
+                elif op.kind == "as":
+                    ops.append(f"as 1 {spec(op.v)} {pl(op.data)}")
+                elif op.kind in ("gs", "ensure"):
+                    ops.append(f"{op.kind} 1")
+                elif op.kind in ("backdate", "setcounter"):
+                    ops.append(f"{op.kind} 1 {op.arg}")
+            if ops:
+                out.append((Case(f"{case.name}-solo{c}", ops), c))
+        return out
+    def compare_derived(self, case, trace, c, solo_trace, backend):
+        kinds = ("av", "gcv", "as", "gs", "ensure", "backdate", "setcounter")
+        multi = [(o, ri) for (o, ri, _) in trace if Op(o).c == c and Op(o).kind in kinds]
+        solo = [(o, ri) for (o, ri, _) in solo_trace if Op(o).kind in kinds]
+        a, b = renumber(multi), renumber(solo)
+        for j, (x, y) in enumerate(zip(a, b)):
+            if x != y:
+                return [f"{backend}: client {c}, its request #{j}: with other clients present `{x}`, alone `{y}`"]
+        if len(a) != len(b):
+            return [f"{backend}: client {c}: {len(a)} responses with others present, {len(b)} alone"]
+        return []
+    def nontrivial(self, case, trace):
+        owner, foreign = {}, False
+        for (o, ri, _) in trace:
+            op = Op(o)
+            if op.kind == "av" and resp_kind(ri) == "added":
+                owner[added_id(ri)] = op.c
+            arg = getattr(op, "p", None) if op.kind in ("av", "gcv") else getattr(op, "v", None)
+            if arg in owner and owner[arg] != op.c:
+                foreign = True
+        return foreign
+
+
 # ------------------------------------------------------------------ snapshot rule (C10/C11/C18)
 def chain_info(acc):
     """acc = [(id, parent, data)] in acceptance order -> (window newest first, base)"""
@@ -829,5 +954,5 @@ class C18(L1Prop):
 
 
 ALL = {}
-for cls in (C01, C02, C07, C08, C10, C11, C12, C13, C18):
+for cls in (C01, C02, C07, C08, C09, C10, C11, C12, C13, C18):
     ALL[cls.id] = cls
